@@ -59,4 +59,5 @@ open(path, 'w').write('\n'.join(json.dumps(l) for l in ls[:3]) + '\n')
 r = tlc.Run('LTypingLemma', workers=2, env={'LEMMA_FILE': path}, tag='c05flip')
 print('lemma with one flipped label: invariants violated', r.invariant_violated)
 os.unlink(path)
-sys.exit(0 if good and r.invariant_violated == ['AsLabelled'] else 1)
+print(r.Printed('LEMMA-FAILED')[:1])
+sys.exit(0 if good and r.invariant_violated == ['AllLemmas'] else 1)
